@@ -9,7 +9,7 @@
              of the output; with a registry: the whole plan) is reported as an error before any call executes or any store
              is accessed; without such a cycle the run succeeds with the from-scratch value.
 Case split (environment): XH_TN (3 | 4), XH_SELF (0 | 1: self loops allowed), XH_MULTI (0 | 1: every present edge doubled),
-XH_REG (0 | 1), XH_TOUT (last | none).
+XH_REG (0 | 1 | 2 = an empty Registry object), XH_TOUT (last | none).
 """
 import os
 
@@ -27,6 +27,7 @@ TN = int(os.environ.get("XH_TN", "3"))
 SELF = os.environ.get("XH_SELF", "0") == "1"
 MULTI = os.environ.get("XH_MULTI", "0") == "1"
 REG = os.environ.get("XH_REG", "0") == "1"
+EMPTY_REG = os.environ.get("XH_REG", "0") == "2"  # an empty Registry() object (falsy: len 0), no store
 TOUT = os.environ.get("XH_TOUT", "last")
 PAIRS = [(i, j) for i in range(TN) for j in range(TN) if i != j or SELF]
 assert len(PAIRS) <= 12
@@ -110,7 +111,7 @@ def c07_run(a01: bool, a02: bool, a12: bool, d01: bool, d10: bool, d02: bool, d2
         return True
     w = W.World(W.NOW)
     plan = uberjob.Plan()
-    reg = uberjob.Registry() if REG else None
+    reg = uberjob.Registry() if (REG or EMPTY_REG) else None
     arg = {(0, 1): a01, (0, 2): a02, (1, 2): a12}
     dep = {(0, 1): d01, (1, 0): d10, (0, 2): d02, (2, 0): d20, (1, 2): d12, (2, 1): d21, (0, 0): s0, (1, 1): s1, (2, 2): s2}
     nodes, stores = [], []
